@@ -12,13 +12,15 @@ with open(os.path.join(VERIF, 'properties.jsonl')) as fp:
         TITLES[p['id']] = p['title']
 
 # id -> (technique, level text, level note)
-CLAIMED = {
+PENDING = {
     'C01': ('property-based testing: Hypothesis-generated DSG specs x both encoders x exhaustive declared vector space, '
             'oracle = independent reference enumeration (R-SEL closure model + R-CONN brute force)',
             'Generated-input search: every decoded instance must be final, feasible and a member of the independently '
             'enumerated architecture set; any exception is a violation when the reference set is non-empty. Finds '
             'counterexamples within the size bounds, establishes nothing beyond them.',
             'Trusted: vf/refsel.py, vf/refconn.py (self-tested against docs/theory.md); spec bounds of DESIGN.md 3.'),
+}
+CLAIMED = {
     'C02': ('property-based testing: Hypothesis-generated selection graphs, all choice orders explored as a decision-set '
             'DAG through the DSG API, oracle = closure predicate on the instance + set equality with the independent '
             'R-SEL enumeration + same decisions => same state',
